@@ -299,6 +299,24 @@ class Gen:
             self.ops.append(["rebuild", r])
             self.ops.extend([list(q) for q in batch])
             self.tags.add("rebuild")
+        elif c < 0.87 and len(self.ifaces) >= 2:
+            # ambiguity scenario: two required keys, provided interfaces interleaved so that the
+            # nested-dictionary enumeration order differs from the registration order
+            pool = [x for x in self.key_pool if x is not None]
+            r1, r2 = rng.sample(pool, 2) if len(pool) >= 2 else (pool[0], pool[0])
+            ps = list(self.ifaces)
+            rng.shuffle(ps)
+            p1, p2, p3 = (ps + ps)[:3]
+            n = rng.choice([0, 0, 1])
+            for (rq, pp) in ((r1, p1), (r2, p2), (r1, p3), (r2, p3)):
+                self.register(r, ([rq], pp, n), _value(rng))
+            self.subscribe(r, ([r2], p2), _value(rng))
+            self.subscribe(r, ([r1], p3), _value(rng))
+            self.subscribe(r, ([r2], p3), _value(rng))
+            for rq in (r1, r2):
+                self.ops.append(["lookup", r, self.look_req([rq]), 0, n])
+                self.ops.append(["subscriptions", r, self.look_req([rq]), 0])
+            self.tags.add("ambiguous")
         else:
             self.ops.append(self.query(r))
 
